@@ -205,3 +205,31 @@ Definition defaulted (d : attrdecls) (atts : list (qname * list N)) : list (qnam
                      | _, Some _ => []
                      | _, None => match au_vc u with VDefault v | VFixed v => [(au_name u, v)] | VNone => [] end
                      end) (ad_uses d).
+
+(** * xsi:type (3.3.4 Element Locally Valid (Element) clause 4.3, 3.4.6 Type Derivation OK (Complex)) *)
+Inductive dmethod := DExt | DRestr.
+(** {disallowed substitutions} of the element declaration / {prohibited substitutions} of its declared type *)
+Record blockset := { bk_ext : bool; bk_restr : bool }.
+Definition blocked (b : blockset) (m : dmethod) : bool := match m with DExt => bk_ext b | DRestr => bk_restr b end.
+(** the ancestry of the type named by xsi:type: that type first, then its base type, and so on; each with the
+    {derivation method} by which it is derived from the next one *)
+Definition ancestry := list (N * dmethod).
+(** the type named by xsi:type may be used for an element with declared type [d] iff it is not abstract and it is [d]
+    itself or derived from [d] by a chain of steps none of which uses a method blocked by the element declaration
+    ([eb]) or by the declared type ([tb]) *)
+Definition xsitype_ok (d : N) (eb tb : blockset) (abstract : bool) (up : ancestry) : Prop :=
+  abstract = false /\
+  exists pre m post, up = pre ++ (d, m) :: post /\ ~ In d (map fst pre) /\
+    forall t s, In (t, s) pre -> blocked eb s = false /\ blocked tb s = false.
+(** a decider for [xsitype_ok] (proved in Proofs08f): the derivation steps from the xsi:type up to [d] *)
+Fixpoint steps_to (d : N) (up : ancestry) : option (list dmethod) :=
+  match up with
+  | [] => None
+  | (t, m) :: r => if (t =? d)%N then Some [] else option_map (cons m) (steps_to d r)
+  end.
+Definition xsitype_okb (d : N) (eb tb : blockset) (abstract : bool) (up : ancestry) : bool :=
+  negb abstract &&
+  match steps_to d up with
+  | Some steps => forallb (fun m => negb (blocked eb m || blocked tb m)) steps
+  | None => false
+  end.
